@@ -86,8 +86,59 @@ def classify(path):
         problems.append('a path from startTest/addSkip to an exit avoids stopTest')
     if not guarded:
         problems.append('a final event (addSuccess/...) is not guarded by outcome.success')
+    sub = _skip_of_subtest(tree)
+    if not sub:
+        problems.append('addSkip(<subtest object>) not confirmed: testPartExecutor does not pass '
+                        'its test_case argument to _addSkip, or subTest does not enter it with the '
+                        'subtest object (event addSkip(sub) of the model)')
     return {'variant': 'V-skip-first' if skip_first else 'V-start-first',
-            'stop_in_finally': ok_stop, 'finals_guarded': guarded, 'problems': problems}
+            'stop_in_finally': ok_stop, 'finals_guarded': guarded, 'skip_of_subtest': sub,
+            'problems': problems}
+
+
+def _skip_of_subtest(tree):
+    """event addSkip(sub): _Outcome.testPartExecutor(test_case, ...) hands *its parameter* to
+    _addSkip in the SkipTest handler, and TestCase.subTest enters testPartExecutor with the
+    _SubTest object it created (not with self)"""
+    tpe = sub = None
+    for n in ast.walk(tree):
+        if isinstance(n, ast.FunctionDef) and n.name == 'testPartExecutor':
+            tpe = n
+        if isinstance(n, ast.FunctionDef) and n.name == 'subTest':
+            sub = n
+    if tpe is None or sub is None or len(tpe.args.args) < 2:
+        return False
+    param = tpe.args.args[1].arg
+    a = False
+    for h in ast.walk(tpe):
+        if isinstance(h, ast.ExceptHandler) and h.type is not None and 'SkipTest' in ast.unparse(h.type):
+            for c in ast.walk(h):
+                if isinstance(c, ast.Call) and (dotted(c.func) or '').split('.')[-1] in ('_addSkip', 'addSkip') \
+                        and any(isinstance(x, ast.Name) and x.id == param for x in c.args):
+                    a = True
+                # 3.9 / 3.10: recorded in outcome.skipped and reported after the test by
+                # ``for test, reason in outcome.skipped: self._addSkip(result, test, reason)``
+                if isinstance(c, ast.Call) and (dotted(c.func) or '').endswith('.skipped.append') and c.args \
+                        and isinstance(c.args[0], ast.Tuple) and c.args[0].elts and \
+                        isinstance(c.args[0].elts[0], ast.Name) and c.args[0].elts[0].id == param:
+                    a = any(isinstance(f, ast.For) and (dotted(f.iter) or '').endswith('.skipped') and
+                            isinstance(f.target, ast.Tuple) and f.target.elts and
+                            any(isinstance(k, ast.Call) and
+                                (dotted(k.func) or '').split('.')[-1] in ('_addSkip', 'addSkip') and
+                                any(isinstance(x, ast.Name) and x.id == getattr(f.target.elts[0], 'id', None)
+                                    for x in k.args) for k in ast.walk(f))
+                            for f in ast.walk(tree)) or a
+    b = False
+    made = {t.attr if isinstance(t, ast.Attribute) else getattr(t, 'id', None)
+            for st in ast.walk(sub) if isinstance(st, ast.Assign) and isinstance(st.value, ast.Call)
+            and (dotted(st.value.func) or '').endswith('_SubTest') for t in st.targets}
+    for c in ast.walk(sub):
+        if isinstance(c, ast.Call) and (dotted(c.func) or '').endswith('testPartExecutor') and c.args:
+            x = c.args[0]
+            nm = x.attr if isinstance(x, ast.Attribute) else getattr(x, 'id', None)
+            if nm in made:
+                b = True
+    return a and b
 
 
 def crosscheck(modelled=('V-start-first', 'V-skip-first')):
